@@ -632,6 +632,44 @@ func TestVerifC16ExecSkel(t *testing.T) {
 		tags = append(tags, "note:"+n)
 	}
 
+	// information only: are the sections literally the programs of the fine machine (C16/ConcFine.v)?  The verdict
+	// is by role (exec_shape, wf_skeleton); another order or number of reads inside ONE section is harmless
+	want := map[string]string{
+		"Hash":         "ERLock ERead FJwk ERUnlock",
+		"signWithHash": "ERLock ERead FJwk ERead FKey ERUnlock",
+		"Keys":         "ERLock EDeferRUnlock ERead FPub",
+		"load":         "ELock EDeferUnlock EWrite FJwk EWrite FKey EWrite FPub",
+	}
+	exact := true
+
+	for _, m := range methods {
+		if exp, ok := want[m.Name]; ok {
+			var evs []string
+
+			for _, e := range m.Events {
+				if e != "ERet" {
+					evs = append(evs, e)
+				}
+			}
+
+			if strings.Join(evs, " ") != exp {
+				exact = false
+
+				tags = append(tags, "fine-program-differs:"+m.Name)
+			}
+
+			delete(want, m.Name)
+		}
+	}
+
+	for name := range want {
+		exact = false
+
+		tags = append(tags, "fine-program-missing:"+name)
+	}
+
+	tags = append(tags, fmt.Sprintf("fine-programs-literal:%v", exact))
+
 	if vf.Want(0) {
 		w.Put(vf.Obs{
 			I: 0, Stream: "exec-skeleton", In: map[string]any{"files": []string{"jwt_finalizer.go", "jwt_signer.go"}},
